@@ -240,6 +240,11 @@ func checkC11(c *Ctx) {
 					closeOK = true
 				}
 			}
+			// a package helper that reports success only after a successful Flush
+			if g := eng.StaticCallee(call.Common()); g != nil && eng.FuncPkgPath(g) == eng.Mod+"/pkg/storage/file" &&
+				knownNilAt(call, rn.call.Block()) && succeedsOnlyAfter(g, "(*bufio.Writer).Flush") {
+				flushOK = true
+			}
 		})
 		switch {
 		case !flushOK:
@@ -256,15 +261,52 @@ func checkC11(c *Ctx) {
 	c.c11Purge(m)
 }
 
-func (c *Ctx) c11Add(m *fsModel) {
-	r, p := c.R, c.P
-	add := p.Method("pkg/storage/file", "Store", "AddMessage")
-	if add == nil {
-		return
+// succeedsOnlyAfter: every return of g whose error result may be nil either returns the
+// result of a call of op itself, or is dominated by a call of op known to have returned nil.
+func succeedsOnlyAfter(g *ssa.Function, op string) bool {
+	if len(g.Blocks) == 0 {
+		return false
 	}
-	cons := shortFn(add)
-	var create, copyC, flush, closeC, widx *ssa.Call
-	eng.EachInstr(add, func(in ssa.Instruction) {
+	var ops []*ssa.Call
+	eng.EachInstr(g, func(in ssa.Instruction) {
+		if call, ok := in.(*ssa.Call); ok && eng.CalleeName(call.Common()) == op {
+			ops = append(ops, call)
+		}
+	})
+	if len(ops) == 0 {
+		return false
+	}
+	okAll, n := true, 0
+	eng.EachInstr(g, func(in ssa.Instruction) {
+		ret, ok := in.(*ssa.Return)
+		if !ok || eng.IsRecoverBlock(ret.Block()) {
+			return
+		}
+		res := eng.ReturnResults(ret)
+		if len(res) == 0 {
+			okAll = false
+			return
+		}
+		e := res[len(res)-1]
+		if definitelyNonNilErr(e) || eng.KnownNonNil(e, ret.Block()) {
+			return
+		}
+		n++
+		for _, c := range ops {
+			if e == ssa.Value(c) || eng.Dominates(c, ret) && eng.KnownNil(c, ret.Block()) {
+				return
+			}
+		}
+		okAll = false
+	})
+	return okAll && n > 0
+}
+
+// rawWriteSeq checks, in fn, that os.Create(raw) → io.Copy → Flush → Close dominate the
+// anchor instruction and are all known to have succeeded in the anchor's block.
+func (c *Ctx) rawWriteSeq(m *fsModel, fn *ssa.Function, anchor ssa.Instruction) (create *ssa.Call, problem string) {
+	var copyC, flush, closeC *ssa.Call
+	eng.EachInstr(fn, func(in ssa.Instruction) {
 		call, ok := in.(*ssa.Call)
 		if !ok {
 			return
@@ -279,13 +321,9 @@ func (c *Ctx) c11Add(m *fsModel) {
 		case "(*bufio.Writer).Flush":
 			flush = call
 		}
-		if eng.StaticCallee(call.Common()) == m.writeIdx {
-			widx = call
-		}
 	})
-	if create == nil || copyC == nil || flush == nil || widx == nil {
-		r.Bad("C11/ORDER/add", cons, p.Pos(add.Pos()), "AddMessage no longer has the create/copy/flush/index-update sequence (create=%v copy=%v flush=%v writeIndex=%v)", create != nil, copyC != nil, flush != nil, widx != nil)
-		return
+	if create == nil || copyC == nil || flush == nil {
+		return create, "no create/copy/flush sequence for the raw file"
 	}
 	var fileV ssa.Value
 	for _, ref := range *create.Referrers() {
@@ -293,10 +331,9 @@ func (c *Ctx) c11Add(m *fsModel) {
 			fileV = e
 		}
 	}
-	// the Close whose success dominates writeIndex
-	eng.EachInstr(add, func(in ssa.Instruction) {
+	eng.EachInstr(fn, func(in ssa.Instruction) {
 		call, ok := in.(*ssa.Call)
-		if ok && eng.CalleeName(call.Common()) == "(*os.File).Close" && call.Call.Args[0] == fileV && eng.Dominates(call, widx) && knownNilAt(call, widx.Block()) {
+		if ok && eng.CalleeName(call.Common()) == "(*os.File).Close" && call.Call.Args[0] == fileV && eng.Dominates(call, anchor) && knownNilAt(call, anchor.Block()) {
 			closeC = call
 		}
 	})
@@ -307,45 +344,145 @@ func (c *Ctx) c11Add(m *fsModel) {
 		}
 	}
 	switch {
-	case !(eng.Dominates(create, copyC) && eng.Dominates(copyC, flush) && eng.Dominates(flush, widx)):
-		r.Bad("C11/ORDER/add", cons, p.InstrPos(widx), "create → copy → flush → index update are not in dominance order: the index can list a message whose body is not fully on disk")
-	case errCopy == nil || !knownNilAt(errCopy, widx.Block()):
-		r.Bad("C11/ORDER/add", cons, p.InstrPos(widx), "the index update is reachable after a failed io.Copy")
-	case !knownNilAt(flush, widx.Block()):
-		r.Bad("C11/ORDER/add", cons, p.InstrPos(widx), "the index update is reachable after a failed Flush")
+	case !(eng.Dominates(create, copyC) && eng.Dominates(copyC, flush) && eng.Dominates(flush, anchor)):
+		return create, "create → copy → flush → index update are not in dominance order: the index can list a message whose body is not fully on disk"
+	case errCopy == nil || !knownNilAt(errCopy, anchor.Block()):
+		return create, "the index update is reachable after a failed io.Copy"
+	case !knownNilAt(flush, anchor.Block()):
+		return create, "the index update is reachable after a failed Flush"
 	case closeC == nil:
-		r.Bad("C11/ORDER/add", cons, p.InstrPos(widx), "the index update is not dominated by a successful Close of the raw file")
-	default:
-		r.Ok("C11/ORDER/add", cons, p.InstrPos(widx), "raw file created, copied, flushed and closed successfully before the index is updated")
+		return create, "the index update is not dominated by a successful Close of the raw file"
 	}
-	// cleanup on error returns after the raw file exists
-	var errCreate ssa.Value
-	for _, ref := range *create.Referrers() {
-		if e, ok := ref.(*ssa.Extract); ok && e.Index == 1 {
-			errCreate = e
+	return create, ""
+}
+
+func (c *Ctx) c11Add(m *fsModel) {
+	r, p := c.R, c.P
+	add := p.Method("pkg/storage/file", "Store", "AddMessage")
+	if add == nil {
+		return
+	}
+	cons := shortFn(add)
+	var widx *ssa.Call
+	eng.EachInstr(add, func(in ssa.Instruction) {
+		if call, ok := in.(*ssa.Call); ok && eng.StaticCallee(call.Common()) == m.writeIdx {
+			widx = call
+		}
+	})
+	// the function that creates the raw file: AddMessage itself or a package helper it calls
+	var W *ssa.Function
+	for _, e := range m.effects {
+		if e.op == "Create" && e.class[0] == "raw" && p.SyncReach(add)[e.fn] {
+			W = e.fn
 		}
 	}
-	start := eng.NilEdgeOf(add, errCreate)
-	if start == nil {
-		r.Undecided("C11/ORDER/add", cons+":cleanup", p.InstrPos(create), "cannot find the success edge of os.Create(raw)")
+	if widx == nil || W == nil {
+		r.Bad("C11/ORDER/add", cons, p.Pos(add.Pos()), "AddMessage no longer has the create/copy/flush/index-update sequence (create=%v writeIndex=%v)", W != nil, widx != nil)
 		return
 	}
 	isRmRaw := func(in ssa.Instruction) bool {
 		call, ok := in.(*ssa.Call)
 		return ok && eng.CalleeName(call.Common()) == "os.Remove" && m.pathClass(call.Call.Args[0], 0) == "raw"
 	}
-	leak := (&eng.Search{Target: func(in ssa.Instruction) bool {
+	errReturn := func(in ssa.Instruction) bool {
 		ret, ok := in.(*ssa.Return)
 		if !ok || eng.IsRecoverBlock(ret.Block()) {
 			return false
 		}
 		res := eng.ReturnResults(ret)
-		return !eng.IsNilConst(res[len(res)-1])
-	}, Avoid: isRmRaw}).FromBlockStart(start)
-	if leak != nil {
-		r.Bad("C11/ORDER/add", cons+":cleanup", p.InstrPos(leak), "an error return after the raw file was created does not remove it: an orphan body stays on disk")
-	} else {
-		r.Ok("C11/ORDER/add", cons+":cleanup", p.InstrPos(create), "every error return after os.Create(raw) passes os.Remove(raw)")
+		return len(res) > 0 && !eng.IsNilConst(res[len(res)-1])
+	}
+	cleanup := func(fn *ssa.Function, errV ssa.Value, what ssa.Instruction) bool {
+		start := eng.NilEdgeOf(fn, errV)
+		if start == nil {
+			r.Undecided("C11/ORDER/add", cons+":cleanup", p.InstrPos(what), "cannot find the success edge of the raw-file creation in %s", shortFn(fn))
+			return false
+		}
+		if leak := (&eng.Search{Target: errReturn, Avoid: isRmRaw}).FromBlockStart(start); leak != nil {
+			r.Bad("C11/ORDER/add", cons+":cleanup", p.InstrPos(leak), "an error return after the raw file was created does not remove it: an orphan body stays on disk")
+			return false
+		}
+		return true
+	}
+	errOf := func(call *ssa.Call) ssa.Value {
+		if _, isTuple := call.Type().(*types.Tuple); !isTuple {
+			return call
+		}
+		n := call.Type().(*types.Tuple).Len()
+		for _, ref := range *call.Referrers() {
+			if e, ok := ref.(*ssa.Extract); ok && e.Index == n-1 {
+				return e
+			}
+		}
+		return nil
+	}
+	if W == add {
+		create, prob := c.rawWriteSeq(m, add, widx)
+		if prob != "" {
+			r.Bad("C11/ORDER/add", cons, p.InstrPos(widx), "%s", prob)
+		} else {
+			r.Ok("C11/ORDER/add", cons, p.InstrPos(widx), "raw file created, copied, flushed and closed successfully before the index is updated")
+		}
+		if create == nil {
+			return
+		}
+		if cleanup(add, errOf(create), create) {
+			r.Ok("C11/ORDER/add", cons+":cleanup", p.InstrPos(create), "every error return after os.Create(raw) passes os.Remove(raw)")
+		}
+		return
+	}
+	// helper form: W writes the raw file and reports success only after the whole sequence;
+	// AddMessage updates the index only after W succeeded
+	var cw *ssa.Call
+	eng.EachInstr(add, func(in ssa.Instruction) {
+		if call, ok := in.(*ssa.Call); ok && eng.StaticCallee(call.Common()) == W {
+			cw = call
+		}
+	})
+	if cw == nil {
+		r.Undecided("C11/ORDER/add", cons, p.Pos(add.Pos()), "the raw file is created in %s, which AddMessage does not call directly", shortFn(W))
+		return
+	}
+	prob := ""
+	var create *ssa.Call
+	nSucc := 0
+	eng.EachInstr(W, func(in ssa.Instruction) {
+		ret, ok := in.(*ssa.Return)
+		if !ok || eng.IsRecoverBlock(ret.Block()) {
+			return
+		}
+		res := eng.ReturnResults(ret)
+		if len(res) == 0 {
+			prob = shortFn(W) + " does not report errors"
+			return
+		}
+		e := res[len(res)-1]
+		if definitelyNonNilErr(e) || eng.KnownNonNil(e, ret.Block()) {
+			return
+		}
+		nSucc++
+		cr, pr := c.rawWriteSeq(m, W, ret)
+		create = cr
+		if pr != "" && prob == "" {
+			prob = "in " + shortFn(W) + " (success return at " + p.InstrPos(ret) + "): " + pr
+		}
+	})
+	ev := errOf(cw)
+	switch {
+	case prob != "":
+		r.Bad("C11/ORDER/add", cons, p.InstrPos(cw), "%s", prob)
+	case nSucc == 0:
+		r.Bad("C11/ORDER/add", cons, p.InstrPos(cw), "%s never reports success", shortFn(W))
+	case ev == nil || !eng.Dominates(cw, widx) || !knownNilAt(ev, widx.Block()):
+		r.Bad("C11/ORDER/add", cons, p.InstrPos(widx), "the index update is reachable without a successful %s: the index can list a message whose body is not fully on disk", shortFn(W))
+	default:
+		r.Ok("C11/ORDER/add", cons, p.InstrPos(widx), "raw file created, copied, flushed and closed successfully (in %s) before the index is updated", shortFn(W))
+	}
+	if create == nil || ev == nil {
+		return
+	}
+	if cleanup(W, errOf(create), create) && cleanup(add, ev, cw) {
+		r.Ok("C11/ORDER/add", cons+":cleanup", p.InstrPos(create), "every error return after os.Create(raw) passes os.Remove(raw), in %s and in AddMessage", shortFn(W))
 	}
 }
 
@@ -361,7 +498,7 @@ func (c *Ctx) c11Remove(m *fsModel) {
 			continue
 		}
 		rc := e.call.Call.Args[0].(*ssa.Call)
-		msg := rc.Call.Args[0]
+		msg := p.Actual(rc.Call.Args[0])
 		// fresh = result of the message constructor in this function
 		fresh := false
 		for _, v := range append(eng.ValueAliases(msg), msg) {
